@@ -27,6 +27,9 @@ type uniTx struct {
 	ref      uint32
 	exp      uint32
 	dep      string
+	typed    bool
+	maxFee   int64
+	maxPrio  int64
 	sameAs   string
 	inBlock  uint32 // the chain includes it in this block (0 = never)
 }
@@ -41,6 +44,7 @@ var uniTxs = []uniTx{
 	{name: "h5", org: "a", gas: 21000, coef: 0, ref: 1, exp: 1},
 	{name: "h6", org: "a", dlg: "b", gas: 21000, coef: 51, ref: 0, exp: 100},
 	{name: "h6b", sameAs: "h6", dlg: "c"},
+	{name: "h7", org: "a", typed: true, maxFee: 3, maxPrio: 1, gas: 21000, ref: 0, exp: 100},
 }
 
 const uniHeads = 3 // heads 1..3
@@ -50,8 +54,14 @@ type universe struct {
 	txs map[string]*txSpec
 }
 
-func newUniverse(limit, lpa int, lifetime time.Duration) *universe {
-	e := newEnv(envOpts{seed: 424242, behind: 5, galactica: 0, rich: 1, poor: uniEnergy, poorNames: uniAccts,
+// variant "fork": the same txs on a chain where GALACTICA starts with block 3 (head 1 is judged for a pre-fork block, the
+// dynamic-fee tx is not admissible yet; priorities change with the fork and are refreshed on the first GALACTICA head)
+func newUniverse(variant string, limit, lpa int, lifetime time.Duration) *universe {
+	gal := uint32(0)
+	if variant == "fork" {
+		gal = 3
+	}
+	e := newEnv(envOpts{seed: 424242, behind: 5, galactica: gal, rich: 1, poor: uniEnergy, poorNames: uniAccts,
 		pool: txpool.Options{Limit: limit, LimitPerAccount: lpa, MaxLifetime: lifetime}})
 	e.evs = &evlog{pool: e.pool}
 	u := &universe{e: e, txs: map[string]*txSpec{}}
@@ -71,7 +81,8 @@ func newUniverse(limit, lpa int, lifetime time.Duration) *universe {
 		if t.sameAs != "" {
 			s = e.build(txParams{dlg: acct(t.dlg)}, u.txs[t.sameAs])
 		} else {
-			p := txParams{org: acct(t.org), dlg: acct(t.dlg), gas: t.gas, coef: t.coef, ref: t.ref, exp: t.exp}
+			p := txParams{org: acct(t.org), dlg: acct(t.dlg), gas: t.gas, coef: t.coef, ref: t.ref, exp: t.exp,
+				typed: t.typed, maxFee: t.maxFee, maxPrio: t.maxPrio}
 			if t.dep != "" {
 				p.dep = u.txs[t.dep]
 			}
@@ -120,8 +131,8 @@ func (u *universe) txFacts() map[string]any {
 			dlg = s.dlg.name
 		}
 		cost := units(mulGas(s.tx.Gas(), u.e.effPrice(s.tx)))
-		out[t.name] = map[string]any{"id": s.id, "org": s.org.name, "dlg": dlg, "cost": cost, "costs": []any{}, "prios": []any{}, "priosnw": []any{}, "cap": digits(feeCap(s.tx, u.e.baseGP)), "prio": digits(u.e.expectedPrio(s.tx, true)), "prio0": digits(u.e.expectedPrio(s.tx, false)),
-			"ref": s.tx.BlockRef().Number(), "exp": s.tx.Expiration(), "dep": s.dep, "typed": false}
+		out[t.name] = map[string]any{"id": s.id, "org": s.org.name, "dlg": dlg, "k": t.name, "cost": cost, "costs": []any{}, "prios": []any{}, "priosnw": []any{}, "cap": digits(feeCap(s.tx, u.e.baseGP)), "prio": digits(u.e.expectedPrio(s.tx, true)), "prio0": digits(u.e.expectedPrio(s.tx, false)),
+			"ref": s.tx.BlockRef().Number(), "exp": s.tx.Expiration(), "dep": s.dep, "typed": t.typed}
 	}
 	return out
 }
@@ -132,11 +143,12 @@ func (u *universe) headFacts() map[string]any {
 	e.headEvent()
 	ev := e.evs.evs[before].ev
 	hd := ev["hd"].(map[string]any)
+	hd["payers"] = []any{}
 	return hd
 }
 
-func printUniverse() {
-	u := newUniverse(2, 2, time.Hour)
+func universeFacts(variant string) map[string]any {
+	u := newUniverse(variant, 2, 2, time.Hour)
 	defer u.e.close()
 	var heads []any
 	heads = append(heads, u.headFacts())
@@ -145,7 +157,11 @@ func printUniverse() {
 		u.e.advance(u.blockTxs(n))
 		heads = append(heads, u.headFacts())
 	}
-	b, _ := json.Marshal(map[string]any{"txs": txs, "heads": heads})
+	return map[string]any{"txs": txs, "heads": heads}
+}
+
+func printUniverse() {
+	b, _ := json.Marshal(map[string]any{"base": universeFacts("base"), "fork": universeFacts("fork")})
 	fmt.Println(string(b))
 }
 
@@ -159,6 +175,7 @@ type replayRun struct {
 	Mismatch   *mismatch   `json:"mismatch,omitempty"`
 	Violations []violation `json:"violations,omitempty"`
 	Stale      int         `json:"stalePromotes"`
+	StalePrios int         `json:"stalePrios"`
 	MidWash    int         `json:"midWashOps"`
 	Key        string      `json:"key"`
 	Discarded  string      `json:"discarded,omitempty"`
@@ -183,6 +200,7 @@ type behFile struct {
 	Limit    int               `json:"limit"`
 	Lpa      int               `json:"lpa"`
 	Lifetime string            `json:"lifetime"`
+	Variant  string            `json:"variant"`
 	Txs      map[string]any    `json:"txs"`
 	Heads    []any             `json:"heads"`
 	Behs     [][]map[string]any `json:"behs"`
@@ -276,11 +294,11 @@ func replayFile(path, expect string) replayResult {
 	var res replayResult
 	var all []trace.Ev
 	for i, beh := range bf.Behs {
-		u := newUniverse(bf.Limit, bf.Lpa, lifetime)
+		u := newUniverse(bf.Variant, bf.Limit, bf.Lpa, lifetime)
 		if i == 0 {
 			checkUniverse(u, &bf)
 			u.e.close()
-			u = newUniverse(bf.Limit, bf.Lpa, lifetime)
+			u = newUniverse(bf.Variant, bf.Limit, bf.Lpa, lifetime)
 		}
 		run, evs := replayOne(u, i, beh, expect, bf)
 		u.e.close()
@@ -566,6 +584,7 @@ func replayOne(u *universe, index int, beh []map[string]any, expect string, bf b
 done:
 	ctl.finish()
 	run.Stale = r.tr.stale
+	run.StalePrios = r.tr.stalePrio
 	if run.Mismatch != nil && run.Stale > 0 {
 		run.Mismatch.Stale = true
 	}
